@@ -100,6 +100,24 @@ class LoopInfo:
         self.line = node.lineno
 
 
+def _canon_iter(it):
+    """Iteration space of a for-loop: zip(X, [f(x) for x in X], ...) iterates over X."""
+    if it[0] == 'call' and it[1] == T.G('zip') and not it[3] and it[2] and not any(a[0] == 'star' for a in it[2]):
+        base = None
+        for a in it[2]:
+            src = a
+            if a[0] == 'comp' and a[1] in ('list', 'gen') and len(a[3]) == 1 and not a[3][0][3] and a[3][0][1][0] == 'bv':
+                src = a[3][0][2]
+            if base is None:
+                base = src
+            elif src != base:
+                return it
+        return base
+    if it[0] == 'call' and it[1] == T.G('enumerate') and it[2] and not it[3]:
+        return _canon_iter(it[2][0])
+    return it
+
+
 def mk_elem(it, loop, path):
     """Element of iterating ``it``; looks through zip / enumerate."""
     path = tuple(path)
@@ -295,9 +313,13 @@ class FuncAnalysis:
         return None
 
     def _s_FunctionDef(self, s):
-        qual = self.fi.qualname + '.<locals>.' + s.name
+        # several nested defs may share a name (one per branch): number them in order
+        self._defcount = getattr(self, '_defcount', {})
+        self._defcount[s.name] = self._defcount.get(s.name, 0) + 1
+        nm = s.name if self._defcount[s.name] == 1 else f'{s.name}#{self._defcount[s.name]}'
+        qual = self.fi.qualname + '.<locals>.' + nm
         self.env[s.name] = ('fn', qual)
-        self.nested[s.name] = qual
+        self.nested[nm] = qual
         self.closures[qual] = dict(self.env)
         self._emit('def', s, name=s.name, qual=qual)
         return None
@@ -482,7 +504,7 @@ class FuncAnalysis:
         self._n_loop += 1
         if kind == 'for':
             import hashlib
-            base = 'L' + hashlib.md5(repr(it).encode()).hexdigest()[:5]
+            base = 'L' + hashlib.md5(repr(_canon_iter(it)).encode()).hexdigest()[:5]
         else:
             self._n_while = getattr(self, '_n_while', 0) + 1
             base = f'W{self._n_while}'
